@@ -397,6 +397,7 @@ type ledgerWorld struct {
 	nativeRegistered bool     // the native token was registered as a staking asset in this history
 	nativeTried      bool     // the native-slashed-while-pending sub-scenario was injected
 	forceTargeted    bool     // the current (scripted) slash must aim at a chosen proportion
+	zeroFactorDone   bool     // this history already executed a slash with slash factor 0 (boundary p = 0 of C04)
 	rewardTried      bool     // the nst-reward-withdraw sub-scenario was injected in this history
 	extraHolds       []string // record keys on which a second AVS (emulated) currently holds one more count
 	nstMode          bool     // history with native-restaking balance adjustments (UpdateNSTBalance), replayed by the model like every other op
@@ -688,7 +689,16 @@ func domLedger(env *Env) error {
 // conservation monitor between two snapshots for an op that must not change value
 func (w *ledgerWorld) checkDelta(before, after *ledgerSnap, what string, expect map[string]*big.Int, exact bool) {
 	w.env.Eval("C01.conservation")
+	for _, a := range sortedKeys(before.totals) {
+		// the published staking total of a registered asset cannot disappear (or become unreadable)
+		if t, ok := after.totals[a]; (!ok || t == nil) && before.totals[a] != nil {
+			w.env.Violate("C01.conservation", "staking-total-lost:"+what, fmt.Sprintf("%s: the published staking total of %s (%s before) is gone: the token's entry no longer carries its asset id / total", what, a, before.totals[a]), w.hist)
+		}
+	}
 	for a := range after.totals {
+		if after.totals[a] == nil || before.totals[a] == nil {
+			continue // appeared with this op (registration) or reported above
+		}
 		d := new(big.Int).Sub(after.valueOf(a), before.valueOf(a))
 		if a == assetstypes.ExocoreAssetID {
 			// native token: value enters/leaves the ledger through the escrow account only
@@ -826,7 +836,11 @@ func (w *ledgerWorld) step(prev *ledgerSnap, kinds map[string]int) *ledgerSnap {
 		res := "ok"
 		if err != nil {
 			res = "rej"
-			if strings.HasPrefix(err.Error(), "panic:") {
+			if strings.HasPrefix(err.Error(), "panic:") && !ledgerBoundPanic(err) {
+				// any other panic (dom_ledger_panics.go): an ordinary refusal, shown to the model as the operation it was
+				w.env.Note("tx-panic-other:" + name)
+			}
+			if ledgerBoundPanic(err) {
 				// a panic inside a message is recovered by baseapp: the tx is rejected and its
 				// cache context dropped. The model does not cover the SDK's 256/315-bit overflow
 				// guards, so such an op is shown to the model as a no-op (state must be unchanged).
@@ -988,7 +1002,7 @@ func (w *ledgerWorld) step(prev *ledgerSnap, kinds map[string]int) *ledgerSnap {
 		if err == nil && near != nil { // C03 acceptance is checked by the absence of rejections within the position
 			w.env.Eval("C03.accept")
 		}
-		if err != nil && near != nil && x.IsPositive() && x.BigInt().Cmp(near) <= 0 && !strings.HasPrefix(err.Error(), "panic:") {
+		if err != nil && near != nil && x.IsPositive() && x.BigInt().Cmp(near) <= 0 && !ledgerBoundPanic(err) {
 			w.env.Violate("C03.accept", "undelegate-rejected-within-position", fmt.Sprintf("undelegation of %s within position %s rejected: %v", x, near, err), w.hist)
 		}
 	case 5: // associate: mostly a (staker, operator) pair that already has delegations - preferably in several assets
@@ -1172,7 +1186,17 @@ func (w *ledgerWorld) slash(prev *ledgerSnap, op sdk.AccAddress) *ledgerSnap {
 	// value) instead of a random power x factor, so that one pending record is regularly hit by
 	// two partial slashes whose cuts add up to more than the record (the cap of the second cut).
 	if r.Chance(1, 2) || w.forceTargeted {
-		if info, verr := c.App.OperatorKeeper.CalculateUSDValueForOperator(c.Ctx, true, op.String(), nil, nil, nil); verr == nil && info.StakingAndWaitUnbonding.IsPositive() {
+		info, verr := func() (i operatortypes.OperatorStakingInfo, e error) {
+			// the harness's own preview of the operator's value: a panic in it is the slash's to report (slash-panic below)
+			defer func() {
+				if rr := recover(); rr != nil {
+					e = fmt.Errorf("panic: %v", rr)
+					w.env.Note("slash.value-preview-panic")
+				}
+			}()
+			return c.App.OperatorKeeper.CalculateUSDValueForOperator(c.Ctx, true, op.String(), nil, nil, nil)
+		}()
+		if verr == nil && info.StakingAndWaitUnbonding.IsPositive() {
 			target := []string{"0.3", "0.5", "0.6", "0.9"}[r.Intn(4)]
 			pw := sdkmath.LegacyMustNewDecFromStr(target).Mul(info.StakingAndWaitUnbonding).MulInt64(1000000).TruncateInt()
 			if pw.IsInt64() && pw.IsPositive() {
@@ -1184,6 +1208,24 @@ func (w *ledgerWorld) slash(prev *ledgerSnap, op sdk.AccAddress) *ledgerSnap {
 	slashID := operatorkeeper.GetSlashIDForDogfood(infr, infraction)
 	_, rerr := c.App.OperatorKeeper.GetOperatorSlashInfo(c.Ctx, c.AVSAddr, op.String(), slashID)
 	isReplay := rerr == nil
+	// boundary p = 0 (C04: "0 <= p <= 100%"; SlashFractionDowntime = 0 is a common setting): once per
+	// history a fresh slash event with slash factor 0 against an operator that has stake and no
+	// native-token pool (F-04c). It must be executed and recorded like any other - every cut is 0 -
+	// and not be refused (monitor C04.refused / slash-refused-with-stake).
+	if !isReplay && !w.zeroFactorDone && r.Chance(1, 2) {
+		hasStake, hasNativePool := false, false
+		for k, p := range prev.pools {
+			if strings.HasPrefix(k, op.String()+"/") {
+				hasStake = hasStake || p.amount.Sign() > 0 || p.pending.Sign() > 0
+				hasNativePool = hasNativePool || strings.HasSuffix(k, "/"+assetstypes.ExocoreAssetID)
+			}
+		}
+		if hasStake && !hasNativePool {
+			factor, power = "0", int64([]int{1, 100, 1000000}[r.Intn(3)])
+			w.zeroFactorDone = true
+			w.env.Outcome("slash.zero-factor")
+		}
+	}
 	// (F-04b, fixed in /repo: an operator whose pools are all empty made SlashAssets divide by zero;
 	// such slashes are generated on purpose and must be refused without a trace.)
 	// the proportion the property prescribes, computed here from the snapshot taken before the slash:
@@ -1661,7 +1703,7 @@ func (w *ledgerWorld) nstAdjust(prev *ledgerSnap, sid, asset string, hint int) *
 		res = "rej"
 	}
 	opLine := fmt.Sprintf("ledger.nstadjust %s %s %s", sid, asset, x)
-	if err != nil && strings.HasPrefix(err.Error(), "panic:") {
+	if ledgerBoundPanic(err) {
 		// as for the other messages: an SDK overflow panic inside the message is a rejected tx that the
 		// model (unbounded integers) is shown as a no-op
 		w.env.Note("tx-panic:nstadjust:" + ledgerErrClass(fmt.Errorf("%s", strings.TrimPrefix(err.Error(), "panic: "))))
